@@ -62,12 +62,12 @@ def queryPairs (q : Bytes) : List (Bytes × Bytes) :=
 /-- `Path::str`: "/" for the empty (normalised) path, otherwise the percent-decoded bytes, lossily if they are not UTF-8 -/
 def pathStr (p : Parsed) : Bytes := if p.path.isEmpty then [47] else utf8Lossy (Percent.decode p.path)
 
-/-- `Headers::get(name)`: custom first (byte-exact), then a standard header by its canonical or lower-case spelling -/
+/-- `Headers::get(name)`: custom first, then a standard header; the name in any letter case -/
 def getHeader (p : Parsed) (name : Bytes) : Option Bytes :=
-  match p.custom.find? (·.1 = name) with
+  match p.custom.find? (sameName ·.1 name) with
   | some nv => some nv.2
   | none =>
-    match (List.zip Gen.reqHeaderCanon Gen.reqHeaderLower).findIdx? fun t => t.1 == name || t.2 == name with
+    match Gen.reqHeaderLower.findIdx? fun t => t == name.map lower with
     | some k => (p.std.find? (·.1 = k)).map (·.2)
     | none => none
 
